@@ -109,7 +109,7 @@ func (v *Value) String() string {
 	}
 
 	if t, ok := v.Interface().(fmt.Stringer); ok {
-		return t.String()
+		return stringerText(t)
 	}
 
 	switch v.getResolvedValue().Kind() {
@@ -233,6 +233,18 @@ func (v *Value) IsTrue() bool {
 		logf("Value.IsTrue() not available for type: %s\n", v.getResolvedValue().Kind().String())
 		return false
 	}
+}
+
+// stringerText is t.String(); a String method that is promoted through an
+// embedded pointer or interface which is nil cannot be called (Go panics):
+// such a value prints as nothing.
+func stringerText(t fmt.Stringer) (text string) {
+	defer func() {
+		if recover() != nil {
+			text = ""
+		}
+	}()
+	return t.String()
 }
 
 // detached returns a copy of a number, text or flag that is a field of an
